@@ -58,6 +58,8 @@ type Val struct {
 	// iface: statically known dynamic type and payload
 	Dyn     types.Type
 	Payload *Val
+	// Tag: marks values produced by library specs (e.g. option closures of go-kms-wrapping)
+	Tag string
 }
 
 func scalar(t Term, gt types.Type) Val { return Val{K: VScalar, T: t, GoT: gt} }
